@@ -56,6 +56,7 @@ Definition apply_kernel (k : kernel) (e : expr) : expr :=
   | KEmptySeq => empty_seq_file empty_seq_cfg_v false e
   | KEmptySeqTest => empty_seq_file empty_seq_cfg_v true e
   | KIdentity => rw_identity e
+  | KStrConcat => rw_str_concat str_concat_cfg_v e
   end.
 
 Definition output_of (k : kernel) (e : expr) : expr := apply_kernel k e.
@@ -76,6 +77,7 @@ Definition kernel_guard (k : kernel) (rho : env) (e : expr) : bool :=
   | KEmptySeq => empty_seq_guard empty_seq_cfg_v false rho e
   | KEmptySeqTest => empty_seq_guard empty_seq_cfg_v true rho e
   | KIdentity => identity_guard rho e
+  | KStrConcat => false
   end.
 Definition nodes_classes (f : expr -> expr) (cls : env -> expr -> list N) (rho : env) (e : expr) : list N :=
   flat_map (fun rn => cls (fst rn) (snd rn)) (visit f rho e).
@@ -97,6 +99,7 @@ Definition finding_classes (k : kernel) (rho : env) (e : expr) : list N :=
   | KEmptySeqTest => if empty_seq_crashes true e then [] else
                  empty_seq_classes empty_seq_cfg_v true rho e ++ (if lost_parens k e then [kf_empty_seq_lost_parens] else [])
   | KIdentity => identity_classes rho e
+  | KStrConcat => []
   end.
 
 Record kcase := {
@@ -126,7 +129,8 @@ Definition eval_after_ok (c : kcase) : bool :=
   has_juxt (apply_kernel (k_kernel c) (k_expr c)) || negb (wf (apply_kernel (k_kernel c) (k_expr c))) ||
   negb (in_model (after_result c)) || str_eqb (show_result (after_result c)) (k_obs_after c).
 (** the parser model on the input: fully parenthesised input parses to itself *)
-Definition norm_input_ok (c : kcase) : bool := expr_eqb (norm (k_expr c)) (allpar (k_expr c)).
+(* (an implicit string concatenation in the input is merged by the parser: compared on the output side, [rw_ok]) *)
+Definition norm_input_ok (c : kcase) : bool := has_juxt (k_expr c) || expr_eqb (norm (k_expr c)) (allpar (k_expr c)).
 (** rewrite model vs real codemod: same parse tree *)
 Definition rw_ok (c : kcase) : bool :=
   let m := norm (apply_kernel (k_kernel c) (k_expr c)) in
